@@ -451,6 +451,57 @@ def x86_mem_unit(res):
     return res
 
 
+def a64_imm_unit(res):
+    """P: ParserAArch64.process_immediate / normalize_imd / process_identifier (real code) on every immediate shape the grammar
+    delivers: plain value (any literal of the number language, decimal or hexadecimal, signed) -> ImmediateOperand of type int whose
+    value is the literal's value; base immediate with 'lsl #n' (n = 0..63) -> value = base * 2**n, the shift kept; floating point
+    (mantissa with/without exponent) -> ImmediateOperand of type double/float carrying the mantissa text resp. the (mantissa, sign,
+    exponent) fields exactly as written; identifier (with relocation/offset) -> IdentifierOperand with those fields."""
+    ex = Engine([REPO + "/" + f for f in PFILES + [PA]])
+    ex.no_init.add("ParserAArch64")
+    call = lambda d: ex.call_method("ParserAArch64", "process_immediate", SObj("ParserAArch64"), [d])
+    val, lang = numlit("imm")
+    paths = ex.explore(lambda: call({"value": val}), [lang])
+
+    def post_val(v, p):
+        if not (isinstance(v, SObj) and v.cls == "ImmediateOperand" and v.fields["_imd_type"] == "int" and v.fields["_shift"] is None and v.fields["_identifier"] is None):
+            return False
+        ex.pc = list(p.pc)
+        return ex.eq_term(v.fields["_value"], intlit(ex, val))
+
+    res.add_paths(paths, post_val, kind="a64-immediate/value")
+    for n in range(64):
+        paths = ex.explore(lambda: call({"base_immediate": {"value": val}, "shift_op": "lsl", "immediate": {"value": str(n)}, "shift": [{"value": str(n)}]}), [lang])
+
+        def post_sh(v, p, n=n):
+            if not (isinstance(v, SObj) and v.cls == "ImmediateOperand" and v.fields["_imd_type"] == "int" and v.fields["_shift"] == {"value": str(n)}):
+                return False
+            ex.pc = list(p.pc)
+            base = intlit(ex, val)
+            return num_term(v.fields["_value"])[0] == num_term(base)[0] * (2 ** n)
+
+        res.add_paths(paths, post_sh, kind=f"a64-immediate/lsl-{n}")
+    for kind in ("double", "float"):
+        for fp in ({"mantissa": "1.5"}, {"mantissa": "2.5", "e_sign": "-", "exponent": "3"}, {"mantissa": "1.0", "e_sign": "+", "exponent": "2"}):
+            paths = ex.explore(lambda: call({kind: dict(fp)}), [])
+
+            def post_fp(v, p, kind=kind, fp=fp):
+                if not (isinstance(v, SObj) and v.cls == "ImmediateOperand" and v.fields["_imd_type"] == kind):
+                    return False
+                got = v.fields["_value"]
+                from fractions import Fraction as F
+                num = F(fp["mantissa"]) * (F(10) ** (int(fp.get("exponent", "0")) * (-1 if fp.get("e_sign") == "-" else 1)))
+                # as written (text / fields) or already converted to its numeric value: both recover the operand
+                return got == (fp if "exponent" in fp else fp["mantissa"]) or (isinstance(got, (int, F)) and not isinstance(got, bool) and got == num)
+
+            res.add_paths(paths, post_fp, kind=f"a64-immediate/{kind}/{'exp' if 'exponent' in fp else 'plain'}")
+    for ident in ({"name": "sym"}, {"relocation": ":lo12:", "name": "sym"}, {"name": "sym", "offset": [{"value": "4"}]}):
+        paths = ex.explore(lambda: call({"identifier": dict(ident)}), [])
+        res.add_paths(paths, lambda v, p, ident=ident: isinstance(v, SObj) and v.cls == "IdentifierOperand" and v.fields["_name"] == "sym"
+                      and v.fields["_relocation"] == ident.get("relocation") and v.fields["_offset"] == ident.get("offset"), kind="a64-immediate/identifier")
+    return res
+
+
 def a64_mem_unit_for(bases, ikinds):
     return lambda res: a64_mem_unit(res, bases, ikinds)
 
@@ -538,6 +589,7 @@ def units_for(prop):
     ] + ([Unit("C09/operand-post-processing", x86_mem_unit, "P", [(PX, "ParserX86ATT.process_memory_address"), (PX, "ParserX86ATT.process_immediate")])] if isa == "x86" else
          [Unit(f"C10/operand-post-processing/base={b}/index={i}", a64_mem_unit_for((b,), (i,)), "P", [(PA, "ParserAArch64.process_memory_address")])
           for b in ("x", "sp", "zr") for i in ("none", "x", "w")]) + [
+    ] + ([Unit("C10/operand-post-processing/immediates", a64_imm_unit, "P", [(PA, "ParserAArch64.process_immediate"), (PA, "ParserAArch64.normalize_imd"), (PA, "ParserAArch64.process_identifier")])] if isa != "x86" else []) + [
     ] + ([Unit("C10/resolve_range_list(all 32x32 ranges)", range_expansion_unit, "P", [(PA, "ParserAArch64.resolve_range_list")])] if isa != "x86" else []) + [
         bounded_unit(f"{prop}/render-parse-roundtrip", "c09_roundtrip", [(PX if isa == "x86" else PA, ("ParserX86ATT" if isa == "x86" else "ParserAArch64") + ".parse_line"),
                      (PX if isa == "x86" else PA, ("ParserX86ATT" if isa == "x86" else "ParserAArch64") + ".construct_parser"), (BP, "BaseParser.parse_file")],
